@@ -122,6 +122,7 @@ def _interp_records(chk):
     import yaml
     from eko.io.runcards import OperatorCard
     from eko.io.struct import EKO
+    from eko.quantities.heavy_quarks import QuarkMassScheme
     from eko.runner import commons
 
     import eko.interpolation as interpolation
@@ -142,21 +143,21 @@ def _interp_records(chk):
         sources = ("memory", "yaml", "archive")
         for src, log, deg in itertools.product(sources, (True, False), (1, 2, 3, 4)):
             card = dc.random_operator(chk.rng, log=log, degree=deg)
-            if src == "yaml":
-                card = OperatorCard.from_dict(_plain_operator(card))
-            elif src == "archive":
-                theory = dc.random_theory(chk.rng)
-                from eko.quantities.heavy_quarks import QuarkMassScheme
-                from eko.io.types import ReferenceRunning
-
-                theory.heavy.masses_scheme = QuarkMassScheme.POLE
-                path = tmp / f"i-{int(log)}-{deg}.tar"
-                builder = EKO.create(path).load_cards(theory, _python_only(card))
-                eko = builder.build()
-                try:
-                    card = eko.operator_card
-                finally:
-                    eko.close()
+            try:
+                if src == "yaml":
+                    card = OperatorCard.from_dict(_plain_operator(card))
+                elif src == "archive":
+                    theory = dc.random_theory(chk.rng)
+                    theory.heavy.masses_scheme = QuarkMassScheme.POLE
+                    path = tmp / f"i-{int(log)}-{deg}.tar"
+                    eko = EKO.create(path).load_cards(theory, card).build()
+                    try:
+                        card = eko.operator_card
+                    finally:
+                        eko.close()
+            except Exception as ex:  # noqa: BLE001 - the round-trip records carry the verdict for this failure
+                chk.diag(f"interpolator clause: card from {src} (log={log}, degree={deg}) could not be produced: {type(ex).__name__}: {str(ex)[:120]}")
+                continue
             del seen[:]
             disp = commons.interpolator(card)
             if len(seen) != 1:
@@ -176,10 +177,6 @@ def _interp_records(chk):
         interpolation.InterpolatorDispatcher.__init__ = orig
         tempfile.tempdir = oldtmp
     return recs, objs
-
-
-def _python_only(card):
-    return card
 
 
 def _plain_operator(card):
@@ -259,15 +256,19 @@ def run(chk):
         chk.diag("the transcription in Cards.tla disagrees with the code on instances that satisfy the property")
 
     # ---- binding demonstration --------------------------------------------------------------
-    good = next(k for k in range(n_shape) if recs[k]["oc"] == "ok" and k not in conf and recs[k]["v"]["kids"][0]["k"] == "xgrid")
+    oks = [k for k in range(n_shape) if recs[k]["oc"] == "ok"]
+    if not oks:
+        raise MachineryError("no dict-like instance round-trips: nothing to corrupt")
+    good = next((k for k in oks if recs[k]["v"]["kids"][0]["k"] == "xgrid"), oks[0])
     c1 = copy.deepcopy(recs[good])
     c1.update(oc="differs", d1="xgrid-log-flag-lost")
-    c2 = copy.deepcopy(recs[good])
-    c2["v"]["kids"][0]["a"] = "lin" if c2["v"]["kids"][0]["a"] == "log" else "lin2"
-    gi = next(k for k in range(len(recs)) if recs[k]["src"] == "interp" and k not in bad)
-    c3 = copy.deepcopy(recs[gi])
+    c2 = copy.deepcopy(recs[good])   # same observation attached to a value no design round-trips this way
+    c2["v"]["kids"][0] = {"k": "npint32", "a": "i1", "kids": [], "n": []}
+    gi = next((k for k in range(len(recs)) if recs[k]["src"] == "interp" and k not in bad), None)
+    base = recs[gi] if gi is not None else {"src": "interp", "declLog": True, "declDeg": 3, "dispLog": True, "dispDeg": 3, "from": "synthetic"}
+    c3 = copy.deepcopy(base)
     c3["dispLog"] = not c3["dispLog"]
-    c4 = copy.deepcopy(recs[gi])
+    c4 = copy.deepcopy(base)
     c4["dispDeg"] += 1
     r = chk.tlc("CardsTrace", "CardsTrace.cfg", trace=[c1, c2, c3, c4], workers=1, label="corrupted records (must be rejected)")
     rej = {t[1] for t in r.printed("BAD") if t[2].startswith("C40:")} | {t[1] for t in r.printed("CONF")}
